@@ -3,4 +3,3 @@ NEXT Next
 INVARIANT Law1
 INVARIANT Law2
 INVARIANT Law3
-INVARIANT Law4
